@@ -430,6 +430,9 @@ func expandMinMax(c Case, top bool) []Case {
 				}
 				sub[m] = a
 				nc := Case{V: cur.V, Hyps: append([]Hyp{}, cur.Hyps...), Subst: sub}
+				// dominating comparisons mention the call as an opaque symbol: tie it to the chosen argument
+				ls, lc := linSym(m), Case{Subst: cur.Subst}.lin(a)
+				nc.Hyps = append(nc.Hyps, Hyp{ls.add(lc, -1), "value of " + canon(m)}, Hyp{lc.add(ls, -1), "value of " + canon(m)})
 				for j, b := range m.Call.Args {
 					if j == i {
 						continue
